@@ -268,6 +268,36 @@ func walkedFields(fn *ssa.Function) []walkUse {
 	for _, b := range fn.Blocks {
 		for _, ins := range b.Instrs {
 			call, ok := ins.(*ssa.Call)
+			if ok && call.Call.Value != ssa.Value(w) {
+				// the walk callback handed on to a helper of the package together with child fields
+				// (walkExprs(w, e.Args)): the helper is trusted to visit what it is given iff it calls
+				// its callback parameter
+				if k := staticCallee(&call.Call); k != nil && fnPkg(k) == fnPkg(fn) && len(k.Blocks) > 0 {
+					passesW, callsIt := false, false
+					for i, a := range call.Call.Args {
+						if a == ssa.Value(w) && i < len(k.Params) {
+							passesW = true
+							for _, kb := range k.Blocks {
+								for _, kin := range kb.Instrs {
+									if kc, ok := kin.(*ssa.Call); ok && kc.Call.Value == ssa.Value(k.Params[i]) {
+										callsIt = true
+									}
+								}
+							}
+						}
+					}
+					if passesW && callsIt {
+						for _, a := range call.Call.Args {
+							if a == ssa.Value(w) {
+								continue
+							}
+							for _, f := range exprFieldsOf(a) {
+								out = append(out, walkUse{f, false, nil, call.Pos()})
+							}
+						}
+					}
+				}
+			}
 			if !ok || call.Call.Value != ssa.Value(w) || len(call.Call.Args) != 1 {
 				continue
 			}
@@ -344,10 +374,15 @@ func mapKeyFields(m ssa.Value, fn *ssa.Function) []*types.Var {
 
 // boundNameFields: string fields of the receiver used as keys when filling the Variables map
 // of a child context in fn.
-func boundNameFields(fn *ssa.Function) map[*types.Var]bool {
+func boundNameFields(fn *ssa.Function, more ...*ssa.Function) map[*types.Var]bool {
 	out := map[*types.Var]bool{}
+	scanned := map[*ssa.Function]bool{}
 	var scan func(f *ssa.Function)
 	scan = func(f *ssa.Function) {
+		if scanned[f] {
+			return
+		}
+		scanned[f] = true
 		for _, b := range f.Blocks {
 			for _, ins := range b.Instrs {
 				mu, ok := ins.(*ssa.MapUpdate)
@@ -370,6 +405,9 @@ func boundNameFields(fn *ssa.Function) map[*types.Var]bool {
 		}
 	}
 	scan(fn)
+	for _, f := range more {
+		scan(f)
+	}
 	return out
 }
 
@@ -453,7 +491,7 @@ func c07Hclsyntax(c *Ctx) {
 			}
 		}
 		if len(scoped) > 0 {
-			bound := boundNameFields(val)
+			bound := boundNameFields(val, c.P.expandedFuncs(val)...)
 			var bn, ln []string
 			for k := range bound {
 				bn = append(bn, k.Name())
